@@ -16,6 +16,8 @@ ASSUMPTIONS = [
     "CHOLMOD (dense_to_sparse, transpose, triplet_to_sparse, ssmult, sparse_to_triplet) is modelled by its documented meaning (GridModel.v header); "
     "its summation order is unspecified, so sums are compared within the tolerance, never bitwise; the stored pattern is compared exactly",
     "integer index arithmetic modelled unbounded (slicemultiply's int cols/stride would wrap for >= 2^31 grid cells)",
+    "a grid axis of more than 100 abscissae is given to the (list-based, quadratic) model in slices of 100 and the results re-indexed — grid evaluation is pointwise in "
+    "the abscissae (C17_grideval_spec); the implementation always receives the whole grid in one call",
     "model tied to the code by this run's correspondence: basis matrices bitwise, ranges and stored index sets exactly, values within the measured bound",
 ]
 TRUSTED_EXTRA = ["SuiteSparse/CHOLMOD as linked by the harness (external library; modelled by its documentation)",
@@ -34,11 +36,12 @@ def gen_coord17(rng, t, d, cls):
 class Case:
     def __init__(self, table, grids, exact, classes, kind):
         self.t, self.grids, self.exact, self.classes, self.kind = table, grids, exact, classes, kind
+        self.twin = None
     def gline(self, gid):
         return "G %s %d %s" % (gid, 1 if self.exact else 0, " ".join("%d %s" % (len(g), " ".join(hexd(x) for x in g)) for g in self.grids))
     def payload(self, gid="replay"):
         return {"table": self.t.to_json(), "grids": [[hexd(x) for x in g] for g in self.grids], "grids_float": [[repr(x) for x in g] for g in self.grids],
-                "exact": self.exact, "classes": self.classes, "kind": self.kind, "case_lines": self.t.lines() + [self.gline(gid)]}
+                "exact": self.exact, "classes": self.classes, "kind": self.kind, "twin": self.twin, "case_lines": self.t.lines() + [self.gline(gid)]}
     def key(self):
         return (tuple(self.t.orders), tuple(map(tuple, self.t.knots)), tuple(hexf(c) for c in self.t.coefs), tuple(tuple(hexd(x) for x in g) for g in self.grids))
 
@@ -46,7 +49,9 @@ def case_from_payload(p):
     tj = p["table"]
     t = Table(tj["orders"], [[dfrom(int(h, 16)) for h in k] for k in tj["knots"]], [ffrom(int(h, 16)) for h in tj["coefs"]], dfrom(int(tj["pad"], 16)))
     grids = [[dfrom(int(h, 16)) for h in g] for g in p["grids"]]
-    return Case(t, grids, bool(p.get("exact")), p.get("classes", []), p.get("kind", "corpus"))
+    c = Case(t, grids, bool(p.get("exact")), p.get("classes", []), p.get("kind", "corpus"))
+    c.twin = p.get("twin")
+    return c
 
 def has_repeat(knots):
     return any(a == b for a, b in zip(knots, knots[1:]))
@@ -132,6 +137,204 @@ def gen_case(rng, small=False, allow_repeated=True):
             g = [g[i] for i in order]; cl = [cl[i] for i in order]
         grids.append(g); classes.append(cl)
     return Case(t, grids, small, classes, kind + "/" + style)
+
+# ------------------------------------------------------------------------------------------------
+# round 3: classes a per-axis generator never produces — neighbouring dimensions that are (nearly) each other's twin, and grids at the
+# two ends of the length scale. What may legitimately be shared between two dimensions (and what an implementation may be tempted to
+# reuse) is decided by three things: order, knot vector, abscissa list; each is made equal / nearly equal / different here.
+TWIN_KNOTS = ["identical", "last_differs", "last_differs", "all_but_first", "all_but_first", "prefix", "prefix", "suffix", "one_interior",
+              "first_differs", "shifted", "unrelated"]
+TWIN_GRIDS = ["same", "same", "same", "same", "one_element", "reordered", "same_length", "extended"]
+
+def vary_knots(rng, k1, how):
+    """a second knot vector of the same length standing in the stated relation to k1 (non-decreasing, first < last)"""
+    n = len(k1)
+    k2 = list(k1)
+    span = k1[-1] - k1[0]
+    f = rng.choice([0.5, 0.75, 1.5, 2.0, 0.3 + rng.unit() * 0.6, 1.1 + rng.unit()])
+    if how == "identical":
+        return k2, how
+    if how == "last_differs":
+        k2[-1] = k1[-1] + span * (0.05 + 0.5 * rng.unit())
+    elif how == "first_differs":
+        k2[0] = k1[0] - span * (0.05 + 0.5 * rng.unit())
+    elif how in ("all_but_first", "prefix"):
+        j = 1 if how == "all_but_first" else rng.rint(1, n - 1)        # the first j knots are shared
+        for q in range(j, n):
+            k2[q] = k1[j - 1] + (k1[q] - k1[j - 1]) * f
+    elif how == "suffix":
+        j = rng.rint(1, n - 1)                                        # the last j knots are shared
+        for q in range(0, n - j):
+            k2[q] = k1[n - j] - (k1[n - j] - k1[q]) * f
+    elif how == "one_interior":
+        q = rng.rint(1, n - 2) if n > 2 else 0
+        lo, hi = k1[q - 1] if q > 0 else k1[0] - 1.0, k1[q + 1] if q + 1 < n else k1[-1] + 1.0
+        v = lo + (hi - lo) * rng.unit()
+        if n > 2 and lo < hi and v != k1[q]:
+            k2[q] = v
+        else:
+            k2[-1] = k1[-1] + span * (0.05 + 0.5 * rng.unit()); how = "last_differs"
+    elif how == "shifted":
+        delta = span * rng.choice([0.01, 0.25, 1.0]) * rng.choice([-1, 1])
+        k2 = [x + delta for x in k1]
+    for q in range(1, n):
+        if k2[q] < k2[q - 1]:
+            k2[q] = k2[q - 1]
+    if not (k2[0] < k2[-1]):
+        k2[-1] = k2[0] + abs(k2[0]) + 1.0
+    if k2 == list(k1):
+        how = "identical"
+    return k2, how
+
+def common_prefix(a, b):
+    n = 0
+    while n < len(a) and n < len(b) and a[n] == b[n]:
+        n += 1
+    return n
+
+def gen_axis_grid(rng, t, d, n):
+    g, cl = [], []
+    for _ in range(n):
+        if g and rng.chance(0.15):
+            j = rng.below(len(g)); g.append(g[j]); cl.append(cl[j] + "*")
+        else:
+            c = rng.choice(GRID_CLASSES)
+            g.append(gen_coord17(rng, t, d, c)); cl.append(c)
+    if rng.chance(0.3):
+        order = sorted(range(n), key=lambda i: g[i])
+        g = [g[i] for i in order]; cl = [cl[i] for i in order]
+    return g, cl
+
+def gen_coefs17(rng, orders, extras):
+    nco = 1
+    for o, e in zip(orders, extras):
+        nco *= o + 1 + e
+    style = rng.choice(["sparse", "sparse", "sparse", "verysparse", "dense", "dense", "single"])
+    pz = {"sparse": rng.choice([0.3, 0.6, 0.85]), "verysparse": 0.97, "dense": 0.0, "single": 1.0}[style]
+    coefs = [0.0 if rng.chance(pz) else gen_coef(rng, rng.choice(["rand", "posneg"])) for _ in range(nco)]
+    if style == "single" or not any(coefs):
+        coefs[rng.below(nco)] = gen_coef(rng, "rand") or 1.0
+    return coefs, style
+
+def gen_twin_case(rng, small=False, force_knots=None, force_grid=None):
+    """2..4 dims of which 2 (sometimes 3) neighbouring ones have the same order and knot count; their knot vectors and their abscissa
+    lists stand in a drawn relation (TWIN_KNOTS x TWIN_GRIDS)"""
+    ndim = rng.choice([2, 2, 2, 3, 3, 4])
+    run = 2 if ndim == 2 or rng.chance(0.75) else 3
+    p = rng.below(ndim - run + 1)
+    maxc = 40 if small else 1500
+    while True:
+        orders = [rng.choice([0, 1, 1, 2, 2, 3, 3, 4]) for _ in range(ndim)]
+        extras = [rng.choice([0, 0, 1, 2, 3, 5]) if ndim > 2 or small else rng.choice([0, 1, 2, 4, 7, 12]) for _ in range(ndim)]
+        for q in range(p + 1, p + run):
+            orders[q], extras[q] = orders[p], extras[p]
+        nco = 1
+        for o, e in zip(orders, extras):
+            nco *= o + 1 + e
+        if nco <= maxc:
+            break
+    knots, rel = [], []
+    for d, (o, e) in enumerate(zip(orders, extras)):
+        scale = 10.0 ** rng.rint(-2, 2)
+        offset = (rng.unit() * 20 - 10) * scale
+        if p < d < p + run:
+            how = force_knots or rng.choice(TWIN_KNOTS)
+            if how == "unrelated":
+                style = rng.choice(["integer", "integer", "uniform", "irregular"])
+                ks = gen_knots(rng, o, e, style, 1.0 if style == "integer" else scale, float(rng.rint(-3, 3)) if style == "integer" else offset)
+            else:
+                ks, how = vary_knots(rng, knots[d - 1], how)
+            rel.append(how)
+        else:
+            style = rng.choice(STRICT_STYLES + ["integer", "repeated"])
+            ks = gen_knots(rng, o, e, style, 1.0 if style == "integer" and rng.chance(0.5) else scale, float(rng.rint(-3, 3)) if style == "integer" else offset)
+        knots.append(ks)
+    coefs, style = gen_coefs17(rng, orders, extras)
+    t = Table(orders, knots, coefs, rng.choice([math.nan, 1e300, 0.0]))
+    budget = 30 if small else 400
+    per = max(1, int(round(budget ** (1.0 / ndim))))
+    grids, classes, grel = [], [], []
+    for d in range(ndim):
+        if p < d < p + run:
+            how = force_grid or rng.choice(TWIN_GRIDS)
+            g0, c0 = grids[d - 1], classes[d - 1]
+            if how == "reordered" and len(set(g0)) < 2:
+                how = "same"
+            if how == "same":
+                g, cl = list(g0), list(c0)
+            elif how == "one_element":
+                g, cl = list(g0), list(c0)
+                j = rng.below(len(g))
+                for _ in range(20):
+                    c = rng.choice(GRID_CLASSES)
+                    x = gen_coord17(rng, t, d, c)
+                    if x != g[j]:
+                        g[j], cl[j] = x, c
+                        break
+            elif how == "reordered":
+                order = list(range(len(g0)))
+                if rng.chance(0.5):
+                    order.reverse()
+                else:
+                    while order == list(range(len(g0))) or [g0[i] for i in order] == g0:
+                        rng.shuffle(order)
+                g, cl = [g0[i] for i in order], [c0[i] for i in order]
+            elif how == "same_length":
+                g, cl = gen_axis_grid(rng, t, d, len(g0))
+            else:       # extended: the previous list plus one more abscissa
+                c = rng.choice(GRID_CLASSES)
+                g, cl = list(g0) + [gen_coord17(rng, t, d, c)], list(c0) + [c]
+            grel.append(how)
+        else:
+            n = 1 if rng.chance(0.15) else rng.rint(1, max(1, per))
+            g, cl = gen_axis_grid(rng, t, d, n)
+        grids.append(g); classes.append(cl)
+    c = Case(t, grids, small, classes, "twin:%s/%s" % ("+".join(rel), "+".join(grel)))
+    c.twin = {"dims": [p, p + run - 1], "knots": rel, "grids": grel,
+              "shared_leading_knots": [common_prefix(knots[q - 1], knots[q]) for q in range(p + 1, p + run)], "nknots": len(knots[p])}
+    return c
+
+def gen_single_point_case(rng, small=False):
+    """every axis of the grid has exactly one point"""
+    c = gen_case(rng, small=small)
+    grids, classes = [], []
+    for d in range(c.t.ndim):
+        cl = rng.choice(GRID_CLASSES)
+        grids.append([gen_coord17(rng, c.t, d, cl)]); classes.append([cl])
+    return Case(c.t, grids, small, classes, "single-point/" + c.kind)
+
+def gen_long_grid_case(rng, npts):
+    """one axis with hundreds of abscissae (every knot, its float neighbours, a fine sweep of the range, points outside), the others short"""
+    ndim = rng.choice([1, 1, 2, 2, 3])
+    d0 = rng.below(ndim)
+    orders = [rng.choice([0, 1, 2, 3, 4]) for _ in range(ndim)]
+    extras = [rng.choice([0, 1, 2, 4]) for _ in range(ndim)]
+    extras[d0] = rng.choice([0, 3, 8, 20])
+    knots = []
+    for d, (o, e) in enumerate(zip(orders, extras)):
+        scale = 10.0 ** rng.rint(-2, 2)
+        style = rng.choice(STRICT_STYLES + ["repeated"])
+        knots.append(gen_knots(rng, o, e, style, scale, (rng.unit() * 20 - 10) * scale))
+    coefs, style = gen_coefs17(rng, orders, extras)
+    t = Table(orders, knots, coefs, rng.choice([math.nan, 1e300, 0.0]))
+    grids, classes = [], []
+    for d in range(ndim):
+        if d == d0:
+            k = knots[d]
+            g = list(k) + [math.nextafter(x, math.inf) for x in k] + [math.nextafter(x, -math.inf) for x in k]
+            cl = ["knot"] * len(k) + ["knot+"] * len(k) + ["knot-"] * len(k)
+            g += [gen_coord17(rng, t, d, "below"), gen_coord17(rng, t, d, "above")]; cl += ["below", "above"]
+            g, cl = g[:npts], cl[:npts]
+            m = npts - len(g)
+            lo, hi = k[0], k[-1]
+            g += [lo + (hi - lo) * (i + rng.unit()) / max(1, m) for i in range(m)]; cl += ["rand"] * m
+            if rng.chance(0.5):
+                order = list(range(len(g))); rng.shuffle(order)
+                g = [g[i] for i in order]; cl = [cl[i] for i in order]
+        else:
+            g, cl = gen_axis_grid(rng, t, d, rng.rint(1, 2))
+        grids.append(g); classes.append(cl)
+    return Case(t, grids, False, classes, "long-grid(%d)/%s" % (npts, style))
 
 # ------------------------------------------------------------------------------------------------
 # exact specification: Cox-de Boor (0/0 := 0) with the one-sided convention of the evaluation properties (BSpline.side_of: right-continuous
@@ -245,13 +448,58 @@ def nan_eq_tokens(a, b):
                 return False
     return True
 
+_JOB = {}
+def _analyse_job(gid):
+    me, res, model = _JOB["args"]
+    return me.analyse_one(gid, res, model)
+
+MODEL_CHUNK = 100
+def merge_chunks(mod, gid, d0):
+    """the model's records for the slices gid.k0, gid.k1, ... of a long axis d0, re-indexed into one record for gid"""
+    parts, q = [], 0
+    while "%s.k%d" % (gid, q) in mod:
+        parts.append(mod.pop("%s.k%d" % (gid, q))); q += 1
+    if not parts or any(d0 not in pt["B"] or "model" not in pt["R"] for pt in parts):
+        return
+    rec = {"B": {d: b for d, b in parts[0]["B"].items() if d != d0}, "R": {}}
+    off, ents, ncol = 0, [], parts[0]["B"][d0][1]
+    for pt in parts:
+        nr, nc, es = pt["B"][d0]
+        for e in es:
+            rc, v = e.split(":"); r, cc = rc.split(",")
+            ents.append("%d,%s:%s" % (int(r) + off, cc, v))
+        off += nr
+    rec["B"][d0] = (off, ncol, ents)
+    toks = [pt["R"]["model"] for pt in parts]
+    if any(t[0] == "THROW" for t in toks):
+        rec["R"]["model"] = ["THROW"]
+    else:
+        off, allents, nd, ranges = 0, [], toks[0][0], None
+        for t in toks:
+            ranges = [int(x) for x in t[1].split("=")[1].split(",")]
+            for e in t[3:]:
+                i, v = e.split(":")
+                idx = [int(x) for x in i.split(",")]
+                idx[d0] += off
+                allents.append((tuple(idx), v))
+            off += ranges[d0]
+        ranges[d0] = off
+        allents.sort()
+        rec["R"]["model"] = [nd, "ranges=" + ",".join(str(r) for r in ranges), "n=%d" % len(allents)] + ["%s:%s" % (",".join(str(x) for x in i), v) for i, v in allents]
+    mod[gid] = rec
+
 class C17:
     PROP = "C17"
     RULE = ("tables of 1..4 dims, orders 0..4 mixed, knot vectors uniform/irregular/integer/wild spacing and (about a quarter of the tables) with repeated knots in one or "
             "more dimensions, multiplicities up to order+2, "
             "coefficient arrays with 30-100% exact zeros (sparse, very sparse, single entry, zero edge slabs, all zero) x grids whose abscissae are drawn per axis from "
             "{every knot, both float neighbours, midpoints, both margins, ends of full support, first/last knot, beyond both ends}, unsorted, with repeated abscissae and "
-            "single-point axes; non-trivial = at least two dimensions or an axis with a repeated/out-of-range/on-knot abscissa; distinct by (orders, knots, coefficient bits, grid bits)")
+            "single-point axes. Round 3 classes: TWIN / NEAR-TWIN neighbouring dimensions (2 or 3 neighbours with the same order and knot count; knot vectors identical / "
+            "differing in the last knot only / in all but the first knot / sharing a prefix or a suffix of drawn length / differing in one interior knot / in the first knot "
+            "only / shifted / unrelated; abscissa lists of the neighbours the same list / differing in one element / the same elements in another order / the same length / "
+            "one list a prefix of the other — every knot relation at least once with the same list); grids with exactly one point on every axis; LONG grids (one axis of "
+            "200..1500 abscissae, 3000 in the thorough tier: every knot, both float neighbours, a sweep of the range, points outside; given to the model in slices of 100, "
+            "to the implementation in one call); non-trivial = at least two dimensions or an axis with a repeated/out-of-range/on-knot abscissa; distinct by (orders, knots, coefficient bits, grid bits)")
 
     def __init__(self):
         self.harness = None
@@ -268,17 +516,36 @@ class C17:
         self.build()
         wd = build_dir("cases-C17-%d" % os.getpid())
         shards = [[] for _ in range(NCPU)]
+        mshards = [[] for _ in range(NCPU)]
         ids = {}
+        chunked = {}
         for ci, c in enumerate(cases):
             gid = "%s%d" % (tag, ci)
             ids[gid] = c
             shards[ci % NCPU] += c.t.lines() + [c.gline(gid)]
-        files = []
+            # the list-based model is quadratic in the length of an axis: a long axis goes to the model in slices of MODEL_CHUNK abscissae
+            # (grid evaluation is pointwise in the abscissae — C17_grideval_spec — so the slices' results, re-indexed, are the model's
+            # result for the whole grid); the implementation always receives the whole grid in one call
+            d0 = max(range(c.t.ndim), key=lambda d: len(c.grids[d]))
+            if len(c.grids[d0]) > MODEL_CHUNK and not c.exact:
+                g = c.grids[d0]
+                gl = []
+                for q, a in enumerate(range(0, len(g), MODEL_CHUNK)):
+                    sub = Case(c.t, c.grids[:d0] + [g[a:a + MODEL_CHUNK]] + c.grids[d0 + 1:], False, [], c.kind)
+                    gl.append(sub.gline("%s.k%d" % (gid, q)))
+                chunked[gid] = d0
+                mshards[ci % NCPU] += c.t.lines() + gl
+            else:
+                mshards[ci % NCPU] += c.t.lines() + [c.gline(gid)]
+        files, mfiles = [], []
         for s, lines in enumerate(shards):
             if lines:
                 f = os.path.join(wd, "%s_%d.cases" % (tag, s))
                 open(f, "w").write("\n".join(lines) + "\n")
                 files.append((f, sum(1 for l in lines if l.startswith("G "))))
+                fm_ = os.path.join(wd, "%s_%d.mcases" % (tag, s))
+                open(fm_, "w").write("\n".join(mshards[s]) + "\n")
+                mfiles.append((fm_, 0))
         impl, mod, crashes = {}, {}, []
         from concurrent.futures import ThreadPoolExecutor
         def run_i(fn):
@@ -305,11 +572,14 @@ class C17:
             return parse_records(p.stdout)
         with ThreadPoolExecutor(max_workers=NCPU) as ex:
             fi = [ex.submit(run_i, f) for f in files]
-            fm = [ex.submit(run_m, f) for f in files] if model else []
+            fm = [ex.submit(run_m, f) for f in mfiles] if model else []
             for fu in fi:
                 o, cr = fu.result(); impl.update(o); crashes += cr
             for fu in fm:
                 mod.update(fu.result())
+        if model:
+            for gid, d0 in chunked.items():
+                merge_chunks(mod, gid, d0)
         shutil.rmtree(wd, ignore_errors=True)
         return {"ids": ids, "impl": impl, "model": mod, "crashes": crashes}
 
@@ -434,28 +704,58 @@ class C17:
         return diffs
 
     # --------------------------------------------------------------------------------------------
+    def analyse_one(self, gid, res, model):
+        """oracle + correspondence for one grid (runs in a forked worker: the counters are returned, not shared)"""
+        c = res["ids"][gid]
+        iout = res["impl"].get(gid)
+        if iout is None or "cpp" not in iout["R"]:
+            return None
+        self.d17_skipped, self.lastknot, self.lastknot_samples = [0], [0, 0, 0, 0], []
+        exact = grid_exact(c)
+        fails = self.oracle(c, iout, exact)
+        diffs, ncmp = None, 0
+        if model and gid in res["model"]:
+            diffs = self.correspond(c, iout, res["model"][gid], exact)
+            nd = parse_nd(iout["R"].get("cpp"))
+            ncmp = (len(nd[2]) if nd else 0) + sum(len(b[2]) for b in iout["B"].values())
+            diffs = [(w, str(a)[:300], str(b)[:300]) for w, a, b in diffs[:3]]
+        return gid, fails, diffs, ncmp, (self.d17_skipped[0], list(self.lastknot), list(self.lastknot_samples))
+
     def analyse(self, res, out, stats, model=True):
         ndiff = 0
-        for gid, c in res["ids"].items():
-            iout = res["impl"].get(gid)
-            if iout is None or "cpp" not in iout["R"]:
+        gids = list(res["ids"])
+        _JOB["args"] = (self, res, model)
+        saved = (self.d17_skipped, self.lastknot, self.lastknot_samples)
+        if len(gids) >= 16:
+            import multiprocessing as mp
+            with mp.get_context("fork").Pool(NCPU) as pool:
+                results = pool.map(_analyse_job, gids, chunksize=4)
+        else:
+            results = [_analyse_job(g) for g in gids]
+        self.d17_skipped, self.lastknot, self.lastknot_samples = saved
+        for r in results:
+            if r is None:
                 continue
-            exact = grid_exact(c)
+            gid, fails, diffs, ncmp, (d17, lk, lks) = r
+            c = res["ids"][gid]
+            iout = res["impl"][gid]
+            self.d17_skipped[0] += d17
+            for i in range(4):
+                self.lastknot[i] += lk[i]
+            self.lastknot_samples += lks[:max(0, 3 - len(self.lastknot_samples))]
             stats["evaluations"] = stats.get("evaluations", 0) + 1
-            for sig, msg in self.oracle(c, iout, exact):
+            for sig, msg in fails:
                 p = c.payload(gid)
                 p.update({"impl_output": {k: (v if k != "B" else {str(d): list(b) for d, b in v.items()}) for k, v in iout.items()},
                           "model_output": res["model"].get(gid, {}).get("R"), "oracle_verdict": msg})
                 out.violation(sig, msg, p)
                 stats["oracle_failures"] = stats.get("oracle_failures", 0) + 1
-            if model and gid in res["model"]:
-                diffs = self.correspond(c, iout, res["model"][gid], exact)
+            if diffs is not None:
                 stats["traces_validated_against_impl"] = stats.get("traces_validated_against_impl", 0) + 1
-                nd = parse_nd(iout["R"].get("cpp"))
-                stats["compared_values"] = stats.get("compared_values", 0) + (len(nd[2]) if nd else 0) + sum(len(b[2]) for b in iout["B"].values())
+                stats["compared_values"] = stats.get("compared_values", 0) + ncmp
                 if diffs:
                     ndiff += 1
-                    stats.setdefault("diffs", []).append((gid, [(w, str(a)[:300], str(b)[:300]) for w, a, b in diffs[:3]]))
+                    stats.setdefault("diffs", []).append((gid, diffs))
         for gid, detail in res["crashes"]:
             c = res["ids"].get(gid)
             p = c.payload(gid) if c else {}
@@ -465,10 +765,25 @@ class C17:
             out.violation("C17:crash:" + loc, "grid evaluation crashed: " + detail.strip().split("\n")[-1][:200], p)
         return ndiff
 
-    def gen(self, rng, n):
+    def gen(self, rng, n, tier="quick"):
         cases = []
         for i in range(n):
             cases.append(gen_case(rng, small=(i % 5 == 0)))
+        # round 3: twin / near-twin neighbouring dimensions (every knot relation x the same abscissa list at least once, then drawn),
+        # single-point grids, long grids
+        r3 = rng.fork("round3")
+        ntwin = max(len(set(TWIN_KNOTS)) + 8, (2 * n) // 5)
+        rels = sorted(set(TWIN_KNOTS))
+        for i in range(ntwin):
+            small = (i % 5 == 0)
+            if i < len(rels):
+                cases.append(gen_twin_case(r3, small=small, force_knots=rels[i], force_grid="same"))
+            else:
+                cases.append(gen_twin_case(r3, small=small))
+        for i in range(max(6, n // 25)):
+            cases.append(gen_single_point_case(r3, small=(i % 2 == 0)))
+        for i in range(max(4, n // 40)):
+            cases.append(gen_long_grid_case(r3, r3.choice([200, 400, 800, 1500]) if tier == "quick" else r3.choice([200, 400, 800, 1500, 3000])))
         return cases
 
     def run(self, info, out):
@@ -487,13 +802,13 @@ class C17:
             r0 = self.execute(corpus, "corpus")
             self.analyse(r0, out, stats)
             stats["corpus_cases"] = len(corpus)
-        cases = self.gen(Rng(seed).fork("main"), n)
+        cases = self.gen(Rng(seed).fork("main"), n, tier)
         res = self.execute(cases, "g")
         ndiff = self.analyse(res, out, stats)
         searched = 0
         fresh = [v for v in out.violations if v[0] not in open_signatures("C17")]
         if (ndiff or not info["proof_ok"]) and not fresh:
-            cases2 = self.gen(Rng(seed + 7919).fork("search"), 10 * n if tier == "quick" else 2 * n)
+            cases2 = self.gen(Rng(seed + 7919).fork("search"), 10 * n if tier == "quick" else 2 * n, tier)
             r2 = self.execute(cases2, "s", model=False)
             self.analyse(r2, out, stats, model=False)
             searched = len(cases2)
@@ -505,9 +820,32 @@ class C17:
                 out.violation("C17:correspondence", "model and implementation disagree (%s); the property oracle found no failing input" % d[0][0], p)
         # coverage
         distinct, dist, dims, kinds, gp = set(), {}, {}, {}, 0
+        twin = {"cases": 0, "knot_relation": {}, "abscissa_relation": {}, "knot_relation_x_same_abscissae": {}, "shared_leading_knots": {}, "knot_count": {}, "neighbours": {}}
+        glen = {"all_axes_single_point": 0, "longest_axis": {}}
         for c in cases:
             dims[c.t.ndim] = dims.get(c.t.ndim, 0) + 1
-            kinds[c.kind] = kinds.get(c.kind, 0) + 1
+            kd = c.kind.split("/")[0].split("(")[0] if c.kind.startswith(("twin", "long-grid", "single-point")) else c.kind
+            kd = "twin" if kd.startswith("twin") else kd
+            kinds[kd] = kinds.get(kd, 0) + 1
+            if c.twin:
+                twin["cases"] += 1
+                for kr, gr, sh in zip(c.twin["knots"], c.twin["grids"], c.twin["shared_leading_knots"]):
+                    twin["knot_relation"][kr] = twin["knot_relation"].get(kr, 0) + 1
+                    twin["abscissa_relation"][gr] = twin["abscissa_relation"].get(gr, 0) + 1
+                    if gr == "same":
+                        twin["knot_relation_x_same_abscissae"][kr] = twin["knot_relation_x_same_abscissae"].get(kr, 0) + 1
+                    key = "all" if sh == c.twin["nknots"] else str(sh) if sh < 3 else ">=3"
+                    twin["shared_leading_knots"][key] = twin["shared_leading_knots"].get(key, 0) + 1
+                nk = c.twin["nknots"]
+                key = "<8" if nk < 8 else "8-15" if nk < 16 else ">=16"
+                twin["knot_count"][key] = twin["knot_count"].get(key, 0) + 1
+                nb = str(c.twin["dims"][1] - c.twin["dims"][0] + 1)
+                twin["neighbours"][nb] = twin["neighbours"].get(nb, 0) + 1
+            if all(len(g) == 1 for g in c.grids):
+                glen["all_axes_single_point"] += 1
+            ml = max(len(g) for g in c.grids)
+            key = "1" if ml == 1 else "2-9" if ml < 10 else "10-99" if ml < 100 else "100-999" if ml < 1000 else ">=1000"
+            glen["longest_axis"][key] = glen["longest_axis"].get(key, 0) + 1
             n1 = 1
             for d, g in enumerate(c.grids):
                 n1 *= len(g)
@@ -531,7 +869,7 @@ class C17:
                 "grid_points_skipped_pointwise_NaN_D17": self.d17_skipped[0],
                 "beyond_scope_points_on_last_knot": {"agree_with_pointwise": self.lastknot[0], "differ": self.lastknot[1], "with_nonzero_exact_value": self.lastknot[2],
                                                      "skipped_pointwise_NaN_D17": self.lastknot[3], "differ_samples": self.lastknot_samples},
-                "input_distribution": {"tables_by_ndim": dims, "case_kinds": kinds, "abscissa_region_classes": dist},
+                "input_distribution": {"tables_by_ndim": dims, "case_kinds": kinds, "abscissa_region_classes": dist, "twin_dimensions": twin, "grid_lengths": glen},
                 "remarks": ["an all-zero coefficient array makes ndsparse(0, ndim) throw (recorded, not flagged: the property speaks of values only)"]}
 
     def replay(self, path, out):
